@@ -5,9 +5,12 @@ from __future__ import annotations
 from vlib import apci_gen as G
 from vlib import apci_masks as M
 from vlib.eqv import same
+from xknx.cemi.cemi_frame import CEMILData
 from xknx.exceptions import ConversionError
 from xknx.telegram import apci as apci_mod
+from xknx.telegram.address import GroupAddress, IndividualAddress
 from xknx.telegram.apci import APCI
+from xknx.telegram.tpci import TDataConnected, TDataGroup, TDataIndividual, TDataTagGroup
 
 LEVEL = "exploration"
 TECHNIQUE = (
@@ -23,7 +26,10 @@ LEVEL_NOTE = (
     "Trusted: the mask table written from the specification citations in the class docstrings (octet 0 TPCI bits; low six APCI bits of "
     "the tolerant 10-bit services and of >6-bit group values; the reserved fields listed in vlib/apci_masks.py). Judged: length, every "
     "unmasked bit, calculated_length() == len-1, re-decode equal (eqv.same). Not judged: an encoder refusing a decoded object (allowed by "
-    "the statement; counted per class), how often tolerant code bits were normalised (counted)."
+    "the statement; counted per class), how often tolerant code bits were normalised (counted). Encoder state is driven: every returned "
+    "bytearray is overwritten by the harness (as CEMILData.to_knx() does with the TPCI bits) and the same and an equal fresh object are encoded "
+    "again; a sample (all valid frames x T_Data_Connected seq 1..15, every 29th accepted input x 2 sequence numbers) is encoded inside "
+    "T_Data_Connected / T_Data_Tag_Group / T_Data_Individual frames, then bare, then as T_Data_Group, each compared with the received octets."
 )
 SHARDS = {"quick": 1, "thorough": 16}
 TIMEOUT = {"quick": 240, "thorough": 1500}
@@ -56,6 +62,9 @@ class Judge:
         self.n = 0
         self.unknown_classes = set()
         self.restart_flag_bits = 0
+        self.repeat_checked = 0
+        self.framed = 0
+        self.frame_refused = 0
 
     def one(self, raw):
         """Returns True if the decoder accepted `raw`."""
@@ -79,8 +88,38 @@ class Judge:
             self.refusal_types.add(f"{cname}:{type(exc).__name__}")
             self.fps.add((cname, "refused", min(ln, 24)))
             return True
+        returned = enc
         enc = bytes(enc)
         wit["reencoded"] = enc.hex()
+        # State: to_knx() hands out a mutable bytearray that CEMILData.to_knx() writes the TPCI bits into. A relay encodes
+        # the same service many times, so what a caller does to one returned buffer must not show up in a later encoding.
+        if isinstance(returned, bytearray) and returned:
+            returned[0] |= 0xFC
+            returned[-1] ^= 0xFF
+        try:
+            again = bytes(obj.to_knx())
+            twin = bytes(APCI.from_knx(raw).to_knx())
+        except Exception as exc:  # noqa: BLE001
+            again = twin = None
+            ctx.violation(
+                f"{cname}-second-encoding-raises-{type(exc).__name__}", wit,
+                f"{cname}: encoding {raw[:20].hex()} a second time raised {exc!r:.120} (the first gave {enc[:20].hex()})",
+            )
+        if again is not None and (again != enc or twin != enc):
+            wit["second_encoding"] = again.hex()
+            wit["encoding_of_equal_fresh_object"] = twin.hex()
+            ctx.violation(
+                f"{cname}-encoding-depends-on-earlier-use-of-returned-buffer", wit,
+                f"{cname}: first encoding {enc[:20].hex()}, after the caller wrote into the returned bytearray the same object "
+                f"encodes to {again[:20].hex()} and an equal freshly decoded object to {twin[:20].hex()}",
+            )
+        self.repeat_checked += 1
+        if enc and enc[0] & 0xFC:
+            ctx.violation(
+                f"{cname}-encoding-carries-transport-layer-bits", wit,
+                f"{cname}: APDU encoding {enc[:20].hex()} has bits 7..2 of octet 0 set; CEMILData.to_knx() ORs the TPCI into them, "
+                f"so the relayed frame changes its transport-layer meaning",
+            )
         if len(enc) != ln:
             ctx.violation(
                 f"{cname}-reencode-changes-length",
@@ -145,9 +184,66 @@ class Judge:
         self.fps.add((cname, "roundtrip", min(ln, 24)))
         return True
 
+    def framed_relay(self, raw, seqs):
+        """Encode the decoded APDU inside frames with non-zero TPCI, then bare and as T_Data_Group; all must match `raw`."""
+        ctx = self.ctx
+        try:
+            obj = APCI.from_knx(raw)
+            cname = type(obj).__name__
+            M.mask(cname, raw)
+        except Exception:  # noqa: BLE001 - not accepted / unknown class: handled by one()
+            return
+        src = IndividualAddress(0x1105)
+        plan = [(TDataConnected(seq), IndividualAddress(0x1101)) for seq in seqs]
+        plan += [(TDataTagGroup(), GroupAddress(0x0A03)), (TDataIndividual(), IndividualAddress(0x1101)),
+                 (None, None), (TDataGroup(), GroupAddress(0x0A03))]
+        history = []
+        for tpci, dst in plan:
+            try:
+                if tpci is None:  # the bare APDU in between
+                    tpdu, want = bytes(obj.to_knx()), 0
+                    label = "bare-apdu"
+                else:
+                    frame = bytes(CEMILData(src_addr=src, dst_addr=dst, tpci=tpci, payload=obj).to_knx())
+                    tpdu, want = frame[7:], tpci.to_knx()
+                    label = type(tpci).__name__
+            except Exception:  # noqa: BLE001 - encoder refusal (allowed), over-long frame
+                self.frame_refused += 1
+                return
+            history.append(f"{label}:{tpdu[:12].hex()}")
+            wit = {"apdu": raw.hex(), "class": cname, "mode": "framed", "sequence_numbers": list(seqs), "encodings_in_order": history}
+            if tpdu[0] & 0xFC != want:
+                ctx.violation(
+                    f"{cname}-framed-encoding-wrong-tpci-bits", wit,
+                    f"{cname}: {label} encoding after {len(history) - 1} other frames of the same service has TPCI bits "
+                    f"{tpdu[0] & 0xFC:#04x}, expected {want:#04x} ({' -> '.join(history)})",
+                )
+                return
+            plain = bytes([tpdu[0] & 0x03]) + tpdu[1:]
+            if len(plain) != len(raw) or M.differs(cname, raw, plain):
+                ctx.violation(
+                    f"{cname}-framed-encoding-alters-defined-bits", wit,
+                    f"{cname}: received {raw[:20].hex()}, {label} encoding carries {plain[:20].hex()} ({' -> '.join(history)})",
+                )
+                return
+            self.framed += 1
+        try:
+            back = CEMILData.from_knx(frame)
+            ok = isinstance(back.tpci, TDataGroup) and same(back.payload, obj)
+        except Exception:  # noqa: BLE001
+            ok = False
+        if not ok:
+            ctx.violation(
+                f"{cname}-relayed-group-frame-decodes-differently", wit,
+                f"{cname}: the T_Data_Group frame {frame.hex()[:60]} relayed after numbered frames does not decode to T_Data_Group + the same service",
+            )
+
     def flush(self):
         ctx = self.ctx
         ctx.ev(self.n)
+        ctx.count("second_encoding_after_buffer_mutation_compared", self.repeat_checked)
+        ctx.count("framed_encodings_compared", self.framed)
+        ctx.count("framed_encoder_refusals", self.frame_refused)
         ctx.count("accepted_and_reencoded", self.n - sum(self.refused.values()))
         ctx.count("encoder_refused_decoded_object", sum(self.refused.values()))
         ctx.count("differs_only_in_reserved_bits", sum(self.masked_only.values()))
@@ -181,14 +277,23 @@ def run(ctx):
         ctx.require(f"accepted:{name}")
     for name in sorted(set(M.MASKS) - set(live)):
         ctx.inconclusive(f"mask table names a service class the library does not define: {name}")
-    ctx.require("accepted_and_reencoded", "differs_only_in_reserved_bits")
+    ctx.require("accepted_and_reencoded", "differs_only_in_reserved_bits", "second_encoding_after_buffer_mutation_compared",
+                "framed_encodings_compared")
     ctx.count("service_classes", len(live) - len(G.STUB_CLASSES))
 
     judge = Judge(ctx)
     offered = 0
-    for _tag, raw in G.input_space(ctx.rng, ctx.quick, ctx.shard, ctx.nshards):
+    accepted = 0
+    for tag, raw in G.input_space(ctx.rng, ctx.quick, ctx.shard, ctx.nshards):
         offered += 1
-        judge.one(raw)
+        if judge.one(raw):
+            accepted += 1
+            # stateful part: the same service encoded inside numbered / tag-group frames, then bare, then as T_Data_Group
+            if tag == "canon":
+                judge.framed_relay(raw, range(1, 16))
+            elif accepted % 29 == 0:
+                first = 1 + accepted // 29 % 15
+                judge.framed_relay(raw, (first, 1 + (first + 6) % 15))
     ctx.count("inputs_offered", offered)
     judge.flush()
     ctx.extra["masks"] = "vlib/apci_masks.py (octet 0: 0x03; per-class reserved fields as listed in its docstring)"
@@ -202,6 +307,8 @@ def replay(ctx, witness):
     ctx.rule = "replay of one recorded APDU"
     raw = bytes.fromhex(witness["apdu"])
     judge = Judge(ctx)
+    if witness.get("mode") == "framed":
+        judge.framed_relay(raw, witness.get("sequence_numbers", (5,)))
     judge.one(raw)
     judge.flush()
     ctx.distinct(("replay", raw.hex()))
